@@ -7,7 +7,7 @@
    timers, executor fairness and CPU time are the world, not the model (DESIGN.md 8, 12.2). *)
 From RsdnsModel Require Import Base Client Timed.
 From RsdnsModel.Spec Require Import Retry.
-From RsdnsModel.Proofs Require Import ClientProofs TimedProofs.
+From RsdnsModel.Proofs Require Import ClientProofs TimedProofs TimedUntimed.
 Open Scope N_scope.
 (* every armed timeout is positive (a zero timeout is an error of set_read_timeout) and expires
    no later than the query lifetime; the UDP one also no later than the current attempt *)
@@ -58,7 +58,7 @@ Proof. exact async_durations_are_configured. Qed.
    Timeout at start + lifetime.  What is left in the queue is a suffix of what was found. *)
 Theorem C15_exchange_refines_spec : forall std smol q lifetime qt queue lo,
   qt_pos qt -> 0 < lifetime -> sorted_from lo queue ->
-  exists rest, exchange_of std smol q lifetime qt zero_jit queue =
+  exists rest, exchange_of std smol q lifetime qt zero_jit zero_jit queue =
     (outcome_of (spec_udp (good_of std q) (exchange_fuel lifetime) (tq_start q) lifetime qt queue), rest) /\
     exists pre, queue = pre ++ rest.
 Proof. exact exchange_refines_spec. Qed.
@@ -85,19 +85,23 @@ Proof. exact spec_udp_filter. Qed.
 Theorem C15_std_is_async : forall good acc, (forall d, acc d = Ok (good d)) ->
   forall start lifetime qt smol fuel arrs now,
   qt_pos qt -> start <= now -> now < start + lifetime -> (N.to_nat (start + lifetime - now) < fuel)%nat ->
-  std_udp_exchange acc start lifetime qt (fun _ => 0) fuel arrs now =
+  std_udp_exchange acc start lifetime qt (fun _ => 0) (fun _ => 0) fuel arrs now =
   async_udp_exchange acc start lifetime qt (fun _ => 0) smol fuel arrs now.
 Proof. exact std_is_async_exact. Qed.
 
-(* TIMERS THAT FIRE LATE (each by at most eps; arrivals in any order).  The first transmission is at
+(* TIMERS THAT FIRE LATE and CPU TIME (each timer late by at most eps; in the blocking client, whose
+   control flow depends on clock readings, handling each delivered datagram or TCP byte takes up to
+   eps — so an attempt or the lifetime can also run out while a datagram is being handled, which is
+   the `elapsed >= timeout` branch of query_left and the `elapsed >= lifetime` branches of
+   lifetime_left / tcp_read_exact_until; arrivals in any order).  The first transmission is at
    the start of the call; consecutive transmissions are at least one query timeout and at most one
    query timeout plus eps apart, all earlier than start + lifetime ([gaps]); the exchange ends with
    a datagram the filter accepts or with Timeout, no later than start + lifetime + eps; and Timeout
    is reported only if the last transmission was within one query timeout (+ eps) of the end of the
    lifetime: the retries are never given up early. *)
-Theorem C15_retries_with_slack : forall std smol q lifetime qt jit eps queue s r t rest,
-  (forall x, jit x <= eps) -> qt_pos qt -> 0 < lifetime ->
-  exchange_of std smol q lifetime qt jit queue = (s, r, t, rest) ->
+Theorem C15_retries_with_slack : forall std smol q lifetime qt jit proc eps queue s r t rest,
+  (forall x, jit x <= eps) -> (forall x, proc x <= eps) -> qt_pos qt -> 0 < lifetime ->
+  exchange_of std smol q lifetime qt jit proc queue = (s, r, t, rest) ->
   tq_start q <= t /\ t <= tq_start q + lifetime + eps /\
   match r with Ok (d, fl) => good_of std q d = Some fl | Err e => e = Timeout | _ => False end /\
   (exists s', s = tq_start q :: s' /\ gaps (tq_start q) lifetime qt eps (tq_start q) s') /\
@@ -108,9 +112,9 @@ Proof. exact exchange_with_slack. Qed.
 (* THE WHOLE CALL: whatever arrives over UDP and whatever the TCP peer does — accepts late or never,
    sends its reply byte by byte, stalls after any byte, closes early —, under every strategy, the
    call returns a value or an error no later than start + lifetime + eps *)
-Theorem C15_call_ends_by_deadline : forall std smol q lifetime qt jit eps buf_len strategy arrs srv sends ev r t,
-  (forall x, jit x <= eps) -> qt_pos qt -> 0 < lifetime ->
-  client_query_timed std smol q lifetime qt jit buf_len strategy arrs srv = (sends, ev, r, t) ->
+Theorem C15_call_ends_by_deadline : forall std smol q lifetime qt jit proc eps buf_len strategy arrs srv sends ev r t,
+  (forall x, jit x <= eps) -> (forall x, proc x <= eps) -> qt_pos qt -> 0 < lifetime ->
+  client_query_timed std smol q lifetime qt jit proc buf_len strategy arrs srv = (sends, ev, r, t) ->
   tq_start q <= t /\ t <= tq_start q + lifetime + eps /\ match r with Ok _ | Err _ => True | _ => False end.
 Proof. exact client_query_deadline. Qed.
 
@@ -124,13 +128,47 @@ Definition ex_resp (id_hi id_lo name : byte) : list byte :=
 Definition ex_junk : list arrival :=
   [(1010, [x00; x01; x02]%byte); (1290, ex_resp x12 x35 "a"); (1610, ex_resp x12 x34 "b")].
 Example C15_example :
-  (forall std, fst (exchange_of std false ex_q 1050 (Some 300) zero_jit ex_junk) = ([1000; 1300; 1600; 1900], Err Timeout, 2050)) /\
-  (forall std, fst (exchange_of std false ex_q 1050 (Some 300) zero_jit (ex_junk ++ [(1650, ex_resp x12 x34 "A")]))
+  (forall std, fst (exchange_of std false ex_q 1050 (Some 300) zero_jit zero_jit ex_junk) = ([1000; 1300; 1600; 1900], Err Timeout, 2050)) /\
+  (forall std, fst (exchange_of std false ex_q 1050 (Some 300) zero_jit zero_jit (ex_junk ++ [(1650, ex_resp x12 x34 "A")]))
      = ([1000; 1300; 1600], Ok (ex_resp x12 x34 "A", 33152), 1650)) /\
-  (forall std, fst (exchange_of std false ex_q 1050 None zero_jit ex_junk) = ([1000], Err Timeout, 2050)) /\
+  (forall std, fst (exchange_of std false ex_q 1050 None zero_jit zero_jit ex_junk) = ([1000], Err Timeout, 2050)) /\
   sorted_from 0 (ex_junk ++ [(1650, ex_resp x12 x34 "A")]) /\ qt_pos (Some 300).
 Proof.
   split; [|split; [|split; [|split]]]; try (intros [|]; vm_compute; reflexivity).
   - cbn. lia.
   - reflexivity.
 Qed.
+
+(* the blocking client with CPU time: the response with another id arrives at 1299, one unit before
+   the first attempt's time is up, and handling a datagram takes 5 units: at 1304 query_left finds
+   the attempt over (`elapsed >= timeout`) and reports TimedOut, which udp_exchange answers with the
+   retransmission — at 1304; the schedule continues from there (1604, 1904), Timeout at 2050 *)
+Example C15_example_cpu_time :
+  fst (exchange_of true false ex_q 1050 (Some 300) zero_jit (fun _ => 5)
+         [(1010, [x00; x01; x02]%byte); (1299, ex_resp x12 x35 "a")]) = ([1000; 1304; 1604; 1904], Err Timeout, 2050).
+Proof. vm_compute. reflexivity. Qed.
+
+(* WHEN EVERYTHING ARRIVES IN TIME the timed machines are the untimed client model of Client.v:
+   exact timers, arrivals in delivery order, a TCP peer that accepts at once and delivers its reply
+   and closes before start + lifetime.  Then each of the four clients starts exactly the exchanges
+   and returns exactly the result that query_raw_impl computes from the receive loop (C12) over the
+   datagrams arriving before start + lifetime and the framing (C14) of the peer's byte stream under
+   the strategy rules (C13) — so those theorems are theorems about the clients over time as well —
+   and it returns before start + lifetime. *)
+Theorem C15_in_time_is_untimed : forall std smol q lifetime qt buf strategy arrs srv lo te sends ev r t,
+  qt_pos qt -> 0 < lifetime -> sorted_from lo arrs ->
+  tp_accept srv = Some 0 -> early (tq_start q + lifetime) (tp_bytes srv) -> tp_eof srv = Some te -> te < tq_start q + lifetime ->
+  client_query_timed std smol q lifetime qt zero_jit zero_jit buf strategy arrs srv = (sends, ev, r, t) ->
+  (ev, r) = client_query std strategy (tq_id q) (tq_name q) (tq_type q) (tq_class q) buf
+              (map snd (filter (early_arr (tq_start q + lifetime)) arrs)) [map snd (tp_bytes srv)] /\
+  t <= tq_start q + lifetime.
+Proof. exact timed_query_is_untimed. Qed.
+
+(* e.g. a truncated answer at 1310 (after one retransmission), then the TCP reply "00 03 aa bb cc" in
+   two segments at 1320 and 1400, closed at 1400: UDP then TCP, the three bytes, at 1400 *)
+Example C15_in_time_example :
+  forall std, client_query_timed std false ex_q 1050 (Some 300) zero_jit zero_jit 512 0
+    [(1310, [x12; x34; x83; x80; x00; x01; x00; x00; x00; x00; x00; x00; x01; "a"; x00; x00; x01; x00; x01]%byte)]
+    {| tp_accept := Some 0; tp_bytes := [(1320, x00); (1320, x03); (1320, xaa); (1400, xbb); (1400, xcc)]; tp_eof := Some 1400 |}
+  = ([1000; 1300], [EvUdpExchange; EvTcpExchange], Ok [xaa; xbb; xcc], 1400).
+Proof. intros [|]; vm_compute; reflexivity. Qed.
